@@ -63,3 +63,55 @@ func c03Pipeline(maxN int) {
 	}
 	vfAssert(conn.Closed, "connection-closed-at-eof")
 }
+
+// VF_C03_write_timeout: a connection on which a write may time out after a partial write whenever a
+// write deadline is armed (what net.Conn documents). The bytes the peer receives must stay a sequence of
+// whole replies: after a reply was cut short nothing else may follow on that connection.
+func VF_C03_write_timeout() {
+	m := hNewManager(2)
+	ctx := context.Background()
+	conn := vfNewConn("P", false)
+	conn.TimeoutsPossible = true
+	stream := append(vfEncode(bs("set"), bs("k"), bs("value")), vfEncode(bs("get"), bs("k"))...)
+	stream = append(stream, vfEncode(bs("ping"))...)
+	vfSpawn(func() {
+		conn.In <- stream
+		close(conn.In)
+	})
+	m.Handle(ctx, conn)
+	want := [][]byte{[]byte("+OK\r\n"), []byte("$5\r\nvalue\r\n"), []byte("+PONG\r\n")}
+	// what arrived must be a prefix of the concatenated replies
+	var all []byte
+	for _, w := range want {
+		all = append(all, w...)
+	}
+	vfAssert(len(conn.Raw) <= len(all), "more-bytes-than-replies")
+	for i := range conn.Raw {
+		if i < len(all) {
+			vfAssert(conn.Raw[i] == all[i], "reply-stream-corrupted-after-a-timed-out-write")
+		}
+	}
+}
+
+// VF_C03_slow_reader: two connections; the first one's peer reads slowly, so its reply is still in the
+// handler's hands (not yet copied to the socket) while the second connection's command is answered. Each
+// client must receive the reply of its own command (reply buffers are not shared between connections).
+func VF_C03_slow_reader() {
+	m := hNewManager(2)
+	ctx := context.Background()
+	hExecMgr(m, bs("rpush"), bs("la"), bs("a1"), bs("a2"))
+	hExecMgr(m, bs("rpush"), bs("lb"), bs("b1"), bs("b2"))
+	a := vfNewConn("A", true)
+	a.LateCopy, a.Gate, a.Release = true, make(chan struct{}), make(chan struct{})
+	b := vfNewConn("B", true)
+	vfSpawn(func() { m.Handle(ctx, a) })
+	vfSpawn(func() { m.Handle(ctx, b) })
+	a.In <- vfEncode(bs("lrange"), bs("la"), bs("0"), bs("-1"))
+	<-a.Gate // A's reply is encoded and its Write is parked before the bytes are copied
+	b.In <- vfEncode(bs("lrange"), bs("lb"), bs("0"), bs("-1"))
+	rb := <-b.Out
+	a.Release <- struct{}{}
+	ra := <-a.Out
+	vfAssert(string(rb) == "*2\r\n$2\r\nb1\r\n$2\r\nb2\r\n", "second-connection-reply")
+	vfAssert(string(ra) == "*2\r\n$2\r\na1\r\n$2\r\na2\r\n", "slow-connection-received-another-connections-reply")
+}
